@@ -799,8 +799,12 @@ def oracle(case, impl, model):
         srcs = json.dumps([field_source(f)[0] for f in v["fields"]]) + (" [future]" if v["future"] else "")
         if i > 0:
             diff = compare_variants(ref, iv)
-            if diff and diff[0] == "definition-error-class" and site(feats + ref_feats) != "plain":
-                diff = None   # both raise; with a known divergence in play the classes are not comparable
+            if diff and diff[0] == "definition-error-class" and (
+                    site(feats + ref_feats) != "plain"
+                    or sum(1 for mf in model["variants"][0]["fields"] if "err" in mf["res"]) != 1):
+                # both raise: the classes are only comparable when exactly one declaration is at fault and no
+                # known divergence is in play (with two invalid defaults the first error depends on the path)
+                diff = None
             if diff and "def_err" in ref and any(x != "falsy-default-kw" for x in feats):
                 diff = None   # the reference itself is rejected (invalid default): only clean spellings are compared
             if diff:
